@@ -11,18 +11,13 @@ def FS.data (fs : FS) (p : Path) : Option Bytes := (fs.get p).map (·.data)
 theorem wb_success (fs : FS) (w : WBIn) (h : (writeBlockEvs w).2 = true) :
     w.rend = .eof ∧ w.fail = .none ∧
     (run fs (writeBlockEvs w).1).get (blockPath w.h) = some ⟨w.chunks.flatten, w.now⟩ := by
-  have := wb_crash_atomic fs w (writeBlockEvs w).1.length
-  rw [List.take_length] at this
-  cases hf : w.fail <;> cases hr : w.rend <;> simp [writeBlockEvs, hf, hr] at h
-  refine ⟨rfl, rfl, ?_⟩
-  have e : (writeBlockEvs w).1 = (wbPre w ++ appends (tmpPath w.h w.sfx) w.chunks ++
-      [⟨wbPt 5, .nop⟩, ⟨wbPt 7, .chtimes (tmpPath w.h w.sfx) w.now⟩]) ++
-      [⟨wbPt 9, .rename (tmpPath w.h w.sfx) (blockPath w.h)⟩] := by
-    simp [writeBlockEvs, hf, hr]
-  rw [e, run_append]
-  have ht := get_tmp_after_copy fs w
-  simp only [run_cons, run_nil, Step.apply, ht]
-  exact get_set_eq _ _ _
+  rcases wb_shape w with ⟨h2, _⟩ | ⟨_, hr, hf, he⟩
+  · rw [h] at h2; cases h2
+  · refine ⟨hr, hf, ?_⟩
+    rw [he, run_append]
+    have ht := get_tmp_after_body fs w
+    simp only [run_cons, run_nil, Step.apply, ht]
+    exact get_set_eq _ _ _
 
 theorem wb_fail_keeps (fs : FS) (w : WBIn) (h : (writeBlockEvs w).2 = false) (k : Nat) :
     (run fs ((writeBlockEvs w).1.take k)).get (blockPath w.h) = fs.get (blockPath w.h) := by
